@@ -52,9 +52,13 @@ for sid in sorted(os.listdir(base)):
     m = json.load(open(mp))
     q = m.get("checks", {}).get("quick", {}).get(m["breaks"], {})
     now = ("caught: " + ", ".join(esc(s.split(":", 1)[-1]) for s in q.get("sigs", [])[:2])) if q.get("fired") else "MISSED"
+    if not q.get("fired") and m.get("neutralised"):
+        now = "no longer a defect: " + esc(m["neutralised"])
+    if not q.get("fired") and m.get("caught_by") and m["breaks"] not in m["caught_by"]:
+        now = "caught by " + ", ".join(m["caught_by"]) + " (not by " + m["breaks"] + ")"
     fr = m.get("first_run", "caught" if q.get("fired") else "missed")
     tot += 1
-    caught += bool(q.get("fired"))
+    caught += bool(q.get("fired")) or bool(m.get("neutralised")) or bool(m.get("caught_by"))
     first += fr == "caught"
     out.append(f"| {sid} | {esc(m['summary'])[:330]} | {esc(m['needs'])[:260]} | {fr} | {now} |")
 out.append(f"\n{tot} seeded changes confirmed; {first} caught on the first run, {caught} caught by the committed checks.\n")
